@@ -114,6 +114,17 @@ Theorem C05_fcb_literal_line_emits_its_value :
 Proof. exact fcb_literal_line_emits_its_value. Qed.
 Print Assumptions C05_fcb_literal_line_emits_its_value.
 
+(* ... and one that does not fit the byte is parsed, then REJECTED at translation with the OperandTypeError diagnostic
+   (FCB 256, FCB $0100, FCB 65535 - never truncated to a byte) *)
+Theorem C05_fcb_literal_line_out_of_range_rejected :
+  forall f l,
+    well_formed_fields f -> upper_t (lf_mn f) = FCB_t -> lf_ops f = lit_text l -> lit_ok l -> 256 <= lit_value l ->
+    exists st, parse_line (line_of f) = Ok (Some st) /\
+      (forall tb, resolve_operand (s_operand st) (s_instr st) tb = Ok (s_operand st)) /\
+      translate_operand (s_operand st) (s_instr st) = Diag 21.
+Proof. exact fcb_literal_line_out_of_range_rejected. Qed.
+Print Assumptions C05_fcb_literal_line_out_of_range_rejected.
+
 Theorem C05_fdb_literal_line_emits_its_value :
   forall f l,
     well_formed_fields f -> upper_t (lf_mn f) = FDB_t -> lf_ops f = lit_text l -> lit_ok l ->
